@@ -15,8 +15,8 @@ NCPU = os.cpu_count() or 4
 
 # runs of seeded search (plain build / sanitized build) and which single-fault spaces are enumerated completely
 BUDGET = {
-    ("C20", "quick"): dict(search=160000, san=4000, det=400, spaces=[], san_spaces=["stress"]),
-    ("C20", "thorough"): dict(search=4000000, san=160000, det=5000, spaces=[], san_spaces=["stress"]),
+    ("C20", "quick"): dict(search=160000, san=4000, det=400, spaces=[], san_spaces=["stress"], memcheck=(1, 800)),
+    ("C20", "thorough"): dict(search=4000000, san=160000, det=5000, spaces=[], san_spaces=["stress"], memcheck=(1, 6000)),
     ("C03", "quick"): dict(search=80000, san=3000, det=400, spaces=["write"]),
     ("C03", "thorough"): dict(search=2000000, san=80000, det=5000, spaces=["write"], san_spaces=["write"]),
     ("C19", "quick"): dict(search=100000, san=5000, det=400, spaces=["trunc", "flip2", "alloc", "read", "stress"], san_spaces=["stress"]),
@@ -39,6 +39,7 @@ SPACE_DESC = {
     "alloc": "the k-th allocation call returns NULL, for every k up to the number of allocations of the fault-free run, for every corpus file",
     "read": "the k-th read of the input fails with EIO, for every k of the fault-free run, for every corpus file",
     "stress": "every (family, size knob) pair of the stress family once, fault-free, including the largest knobs (10^5-byte tokens, 196 417 case labels in worst-case AVL order, 4097 names per scope) and the operator/type matrix (59 forms x 30 x 30 operand type categories; one sixth of it per quick run, all of it in the thorough tier)",
+    "memcheck": "every corpus and feature file in its own mode and with -E (or another target), every preprocessed source of cproc itself and the smallest member of every stress family, each once under valgrind's memcheck with the simulated allocator's blocks marked undefined and every output byte and the exit status checked for definedness",
     "write": "the k-th write to the output fails (ENOSPC), for every k of the fault-free run under 4 buffer modes, transient and persistent, accepting 0 / 1 / all-but-one bytes, for every corpus file",
 }
 
@@ -77,6 +78,20 @@ def known_sig_file(prop, work):
     return path, sigs
 
 
+def memcheck_prefix(work):
+    """command prefix that starts a simulator-B worker under valgrind's memcheck; None when valgrind is missing"""
+    vg = shutil.which("valgrind")
+    if not vg:
+        return None
+    d = os.path.join(work, "vg")
+    os.makedirs(d, exist_ok=True)
+    pre = [vg, "-q", "--log-file=%s/vg.%%p" % d, "--leak-check=no", "--error-limit=no", "--num-callers=12"]
+    sa = shutil.which("setarch")
+    if sa:
+        pre = [sa, "x86_64", "-R"] + pre
+    return ["env", "SIMB_NOASLR_DONE=1", "SIMB_VG_LOGDIR=" + d, "SIMB_VG_PREFIX=" + " ".join(pre)] + pre
+
+
 def replay(prop, path):
     try:
         j = json.load(open(path))
@@ -88,7 +103,13 @@ def replay(prop, path):
     work = tempfile.mkdtemp(prefix="simB-replay-", dir=build.BUILD)
     try:
         ks, _ = known_sig_file(prop, work)
-        r = subprocess.run([exe, "replay", path, "--repo", build.REPO, "--known-sigs", ks, "--features", FEATURES, "--own", own_sources(), "--log"])
+        pre = []
+        if j.get("build") == "memcheck":
+            pre = memcheck_prefix(work)
+            if pre is None:
+                print("valgrind is not installed: a memcheck finding cannot be replayed")
+                return 2
+        r = subprocess.run(pre + [exe, "replay", path, "--repo", build.REPO, "--known-sigs", ks, "--features", FEATURES, "--own", own_sources(), "--log"])
         return r.returncode
     finally:
         shutil.rmtree(work, ignore_errors=True)
@@ -159,6 +180,21 @@ def run(prop, tier):
         add("search", exe, ["--hashes", "@OUT@.idx", "--hashes-below", str(det)], b["search"], nplain, seed)
         if exe_san:
             add("san", exe_san, [], b["san"], nsan, seed + 104729)
+        # C20's last clause under memcheck: the same worker, started under valgrind
+        vg = memcheck_prefix(work) if b.get("memcheck") else None
+        if b.get("memcheck") and not vg:
+            print("NOTE valgrind not found: the memcheck portion of %s is skipped" % prop)
+        if vg:
+            step, nsearch = b["memcheck"]
+            out = subprocess.run([exe, "space", "--name", "memcheck", "--repo", build.REPO, "--features", FEATURES, "--own", own_sources()], stdout=subprocess.PIPE, text=True).stdout
+            spaces["memcheck"] = json.loads(out)["total"]
+            n0 = len(jobs)
+            add("memcheck-space", exe, ["--space", "memcheck"], spaces["memcheck"], NCPU, seed, first=seed % step, step=step)
+            if nsearch:
+                add("memcheck-search", exe, [], nsearch, NCPU, seed + 15485863)
+            for i in range(n0, len(jobs)):
+                k, o, c = jobs[i]
+                jobs[i] = (k, o, vg + c)
         jobs2 = []
         jobs_bak = jobs
         jobs = jobs2
@@ -243,6 +279,9 @@ def run(prop, tier):
         exhaustive_sub = {}
         for sp in b.get("spaces", []):
             exhaustive_sub[sp] = {"size": spaces[sp], "runs": per_kind.get("space-" + sp, 0), "complete": per_kind.get("space-" + sp, 0) >= spaces[sp], "what": SPACE_DESC[sp], "build": "plain"}
+        if "memcheck" in spaces:
+            step = b["memcheck"][0]
+            exhaustive_sub["memcheck"] = {"size": spaces["memcheck"], "runs": per_kind.get("memcheck-space", 0), "complete": step == 1 and per_kind.get("memcheck-space", 0) >= spaces["memcheck"], "what": SPACE_DESC["memcheck"], "build": "plain, under valgrind memcheck"}
         for sp in b.get("san_spaces", []):
             exhaustive_sub[sp + " (sanitized)"] = {"size": spaces[sp], "runs": per_kind.get("sanspace-" + sp, 0), "complete": per_kind.get("sanspace-" + sp, 0) >= spaces[sp], "what": SPACE_DESC[sp], "build": "ASan+UBSan"}
         cov = {
@@ -271,6 +310,9 @@ def run(prop, tier):
             "known_finding_matches": maps["known"],
             "violation_classes": maps["verdicts"],
             "sanitized_only_unreproducible": maps["unreproducible_sanitized"],
+            "memcheck": {"runs_under_valgrind_memcheck": per_kind.get("memcheck-space", 0) + per_kind.get("memcheck-search", 0),
+                         "oracle": "blocks handed out by the simulated malloc/realloc are marked undefined, every byte reaching the simulated output descriptors and the exit status are checked for definedness, and any memcheck error (branch or address depending on an undefined value) inside the run is a C20/uninitialised-memory violation; these workers decide nothing else",
+                         "violations": sum(v for k, v in maps["verdicts"].items() if k.startswith("C20/uninitialised-memory"))} if "memcheck" in spaces else None,
             "determinism_gate": {"runs_compared": compared, "mismatches": len(mism), "worker_counts": [nplain, 3]},
             "components": {"real": ["attr.c decl.c eval.c expr.c init.c main.c map.c pp.c scan.c scope.c stmt.c targ.c token.c tree.c type.c utf.c util.c qbe.c", "glibc stdio buffering"],
                            "stub": ["malloc/realloc/free (seeded arena allocator with canaries, or ASan's allocator in the sanitized build)", "fopen/freopen/stdin/stdout/stderr (fopencookie streams)", "exit/abort/__assert_fail", "getenv/time/rand/getpid/setlocale tripwires"]},
